@@ -113,7 +113,9 @@ class Program:
         self.funcs = {}
         self.static_allocs = {}
         for mf in mirfiles:
+            crate = os.path.basename(mf).split(".")[0]
             for k, f in parse_file(mf).items():
+                f.crate = crate
                 self.funcs.setdefault(k, f)
             for m in re.finditer(r"^(alloc\d+) \(static: ([A-Za-z_0-9:]+)", open(mf, encoding="utf-8").read(), flags=re.M):
                 self.static_allocs[(os.path.basename(mf).split(".")[0], m.group(1))] = m.group(2)
@@ -121,6 +123,7 @@ class Program:
         self.srcroot = srcroot
         self.compiled = {}
         self.enums = {}       # name -> (variants list, fieldless?)
+        self.enum_alts = {}
         self.structs = {}
         self.methods = {}     # (Type, trait|None, method) -> Func
         self.allocs = {}
@@ -132,9 +135,14 @@ class Program:
 
     # --- source scraping for enum discriminants
     def _scan_sources(self):
+        self.enum_origin = {}
         for root, _, files in os.walk(self.srcroot):
+            if "/target" in root:
+                continue
             for fn in files:
                 if fn.endswith(".rs"):
+                    m = re.search(r"crates/([a-z0-9_]+)/", root + "/")
+                    self._cur_origin = (m.group(1) if m else "", fn[:-3])
                     self._scan_enum(open(os.path.join(root, fn), encoding="utf-8").read())
         self.enums.setdefault("Option", (["None", "Some"], [False, True], None))
         self.enums.setdefault("Result", (["Ok", "Err"], [True, True], None))
@@ -176,22 +184,45 @@ class Program:
                 cur += 1
             if name not in self.enums:
                 self.enums[name] = (vs, hasf, discs)
+                self.enum_origin[name] = getattr(self, "_cur_origin", ("", ""))
+            elif self.enums[name][0] != vs:
+                # several enums share a name across crates (ast::Stmt / asg::Stmt): keep all, pick by variant
+                alts = self.enum_alts.setdefault(name, [name])
+                if not any(self.enums[k][0] == vs for k in alts):
+                    key = f"{name}#{len(alts)}"
+                    self.enums[key] = (vs, hasf, discs); alts.append(key)
+                    self.enum_origin[key] = getattr(self, "_cur_origin", ("", ""))
 
-    def enum_info(self, path):
-        c = self._eicache.get(path, 0)
+    def enum_info(self, path, crate=None):
+        c = self._eicache.get((path, crate), 0)
         if c == 0:
-            c = self._enum_info(path)
-            self._eicache[path] = c
+            c = self._enum_info(path, crate)
+            self._eicache[(path, crate)] = c
         return c
 
-    def _enum_info(self, path):
+    def _enum_info(self, path, crate=None):
         """path like `syntax_kind_enum::SyntaxKind::SEMICOLON` or `Option::<T>::Some` -> (enumname, variantidx)"""
         p = re.sub(r"::<.*>(?=::|$)", "", strip_generics(path))
         segs = p.split("::")
         if len(segs) >= 2 and segs[-2] in self.enums:
-            vs, hasf, discs = self.enums[segs[-2]]
-            if segs[-1] in vs:
-                return segs[-2], vs.index(segs[-1])
+            cands = []
+            for key in self.enum_alts.get(segs[-2], [segs[-2]]):
+                vs, hasf, discs = self.enums[key]
+                if segs[-1] in vs:
+                    cands.append(key)
+            if len(cands) > 1:
+                # same enum name and variant in several crates/modules: choose by the path's module or crate, else by the crate of the code that is running
+                def score(key):
+                    oc, om = self.enum_origin.get(key, ("", ""))
+                    sc = 0
+                    if om in segs[:-2]: sc += 4
+                    if oc in segs[:-2]: sc += 2
+                    if crate and oc == crate and not any(x.startswith("oq3_") for x in segs[:-2]): sc += 1
+                    return sc
+                cands.sort(key=score, reverse=True)
+            if cands:
+                key = cands[0]
+                return key, self.enums[key][0].index(segs[-1])
         return None
 
     def fieldless(self, ename):
@@ -210,6 +241,9 @@ class Program:
     # --- method index
     def _index(self):
         self._inherent = set()
+        self.impl_hdr = {}
+        self._fn_generics = None
+        self.methods_all = {}
         for raw, f in self.funcs.items():
             m = re.search(r"<impl at ([^:>]+):(\d+):(\d+): (\d+):(\d+)>::([A-Za-z_0-9]+)((?:::\{closure#\d+\})*)$", raw)
             if not m:
@@ -221,6 +255,7 @@ class Program:
             trait = None; selfty = None
             if hdr is None:
                 continue
+            self.impl_hdr[raw] = (hdr, file, int(l1))
             if hdr.startswith("impl"):
                 h = re.sub(r"^impl\s*(<[^>]*>)?\s*", "", hdr)
                 if " for " in h:
@@ -232,6 +267,7 @@ class Program:
                 trait = hdr.strip()
                 a0 = f.argtypes[0] if f.argtypes else f.ret
                 selfty = last_seg(a0.lstrip("&").replace("mut ", ""))
+            self.methods_all.setdefault((selfty, trait, meth), []).append((f, file))
             self.methods.setdefault((selfty, trait, meth), f)
             if trait is None:
                 self.methods[(selfty, None, meth)] = f          # an inherent method wins over a trait method of the same name
@@ -254,12 +290,50 @@ class Program:
             return lines[l1 - 1][c1 - 1:c2 - 1]
         return lines[l1 - 1][c1 - 1:]
 
-    def resolve(self, callee):
-        r = self._rcache.get(callee, 0)
+    def resolve(self, callee, crate=None):
+        r = self._rcache.get((callee, crate), 0)
         if r == 0:
             r = self._resolve(callee)
-            self._rcache[callee] = r
+            r = self._disambiguate(callee, r, crate)
+            self._rcache[(callee, crate)] = r
         return r
+
+    def _disambiguate(self, callee, r, crate):
+        """several crates define a type of the same name (ast::Expr / asg::Expr): pick the impl by the type's path"""
+        if r is None:
+            return r
+        m = re.match(r"^<(.*) as (.*)>::([A-Za-z_0-9]+)(::<.*>)?$", callee)
+        if m:
+            selfpath = strip_generics(m.group(1).lstrip("&").replace("mut ", ""))
+            key = (last_seg(selfpath), last_seg(m.group(2)), m.group(3))
+            segs = selfpath.split("::")[:-1]
+        else:
+            m2 = re.match(r"^(.*::)?<impl (.*)>::([A-Za-z_0-9]+)(::<.*>)?$", callee)
+            if m2:
+                selfpath = strip_generics(m2.group(2))
+                key = (last_seg(selfpath), None, m2.group(3))
+                segs = [x for x in (m2.group(1) or "").split("::") if x] + selfpath.split("::")[:-1]
+            else:
+                sg = strip_generics(callee).split("::")
+                if len(sg) < 2 or not sg[-2][:1].isupper():
+                    return r
+                key = (sg[-2], None, sg[-1]); segs = sg[:-2]
+        cands = self.methods_all.get(key)
+        if key[1] is None and cands:
+            inh = [c for c in cands if (key[0], key[2]) in self._inherent and c[0] in [self.methods.get((key[0], None, key[2]))] + [x[0] for x in cands]]
+        if not cands or len(cands) < 2:
+            return r
+
+        def score(c):
+            f, file = c
+            base = os.path.basename(file)[:-3]
+            sc = 0
+            if base in segs: sc += 4
+            if getattr(f, "crate", "") in segs: sc += 2
+            if crate and getattr(f, "crate", None) == crate and not any(x.startswith("oq3_") for x in segs): sc += 1
+            return sc
+        best = sorted(cands, key=score, reverse=True)
+        return best[0][0]
 
     def _resolve(self, callee):
         f = self.funcs.get(callee)
@@ -269,11 +343,37 @@ class Program:
         m = re.match(r"^<(.*) as (.*)>::([A-Za-z_0-9]+)(::<.*>)?$", c)
         if m and m.group(1).startswith("&"):
             return None     # std's forwarding impls on references (`impl PartialEq for &A`): handled by a model that unwraps
+        if m and strip_generics(m.group(1)).split("::")[0] in EXTERN_CRATES and last_seg(m.group(2)) not in self.repo_traits():
+            return None     # `<std::string::String as Clone>::clone` must never hit a repository type that is also called String
+        if m and last_seg(m.group(2)) in ("Into", "From") and m.group(3) in ("into", "from"):
+            # `<X as Into<Y>>::into` is std's blanket impl over `<Y as From<X>>::from`
+            if m.group(3) == "into":
+                src = last_seg(m.group(1)); dm = re.search(r"Into<(.*)>$", m.group(2)); dst = last_seg(dm.group(1)) if dm else None
+            else:
+                dst = last_seg(m.group(1)); dm = re.search(r"From<(.*)>$", m.group(2)); src = last_seg(dm.group(1).lstrip("&")) if dm else None
+            cands = [f for raw, f in self.funcs.items() if f.kind == "fn" and raw.split("::")[-1] == "from" and f.nargs == 1
+                     and last_seg(f.argtypes[0].lstrip("&")) == src and last_seg(f.ret) == dst]
+            return cands[0] if len(cands) == 1 else None
         if m:
             key = (last_seg(m.group(1).lstrip("&").replace("mut ", "")), last_seg(m.group(2)), m.group(3))
             r = self.methods.get(key)
+            if r is not None:
+                # the trait's own type arguments must agree: `<u32 as TryFrom<u128>>` is not `impl TryFrom<&TExpr> for u32`
+                ca = re.search(r"<(.*)>$", m.group(2))
+                hdr = self.impl_hdr.get(r.rawname)
+                if ca and hdr and hdr[0].startswith("impl") and " for " in hdr[0]:
+                    ia = re.search(r"<(.*)>\s*$", re.sub(r"^impl\s*(<[^>]*>)?\s*", "", hdr[0]).split(" for ")[0].strip())
+                    if ia:
+                        norm = lambda t: [last_seg(x.strip().lstrip("&").replace("mut ", "")) for x in split_top(t) if not x.strip().startswith("'")]
+                        if norm(ca.group(1)) != norm(ia.group(1)) and not any(len(x) == 1 and x.isupper() for x in norm(ia.group(1))):
+                            r = None
             if r is None and key[1] in ("From", "Into", "Not", "Clone", "PartialEq", "Default"):
                 r = self.methods.get((key[0], None, key[2]))
+            if r is None and key[0] in ("Result", "Option", "Vec", "Box") and key[1] in self.repo_traits():
+                # impl on a type alias (`impl Tr for SymbolRecordResult<'_>` = Result<..>): unique (trait, method) of the repository
+                cands = {id(f): f for (sty, tr, me), f in self.methods.items() if tr == key[1] and me == key[2]}
+                if len(cands) == 1:
+                    r = list(cands.values())[0]
             return r
         m = re.match(r"^(?:.*::)?<impl (.*)>::([A-Za-z_0-9]+)(::<.*>)?$", c)
         if m:
@@ -300,6 +400,118 @@ class Program:
         if segs[0] in EXTERN_CRATES:
             return None
         return self.suffix_match(sg)
+
+    def unit_structs(self):
+        t = self.__dict__.get("_unit_structs")
+        if t is None:
+            t = set()
+            for root, _, files in os.walk(self.srcroot):
+                if "/target" in root:
+                    continue
+                for fn in files:
+                    if fn.endswith(".rs"):
+                        try:
+                            t |= set(re.findall(r"\bstruct\s+([A-Z][A-Za-z0-9_]*)\s*;", open(os.path.join(root, fn), encoding="utf-8").read()))
+                        except OSError:
+                            pass
+            self._unit_structs = t
+        return t
+
+    def repo_traits(self):
+        t = self.__dict__.get("_repo_traits")
+        if t is None:
+            t = set()
+            for root, _, files in os.walk(self.srcroot):
+                if "/target" in root:
+                    continue
+                for fn in files:
+                    if fn.endswith(".rs"):
+                        try:
+                            t |= set(re.findall(r"\btrait\s+([A-Z][A-Za-z0-9_]*)", open(os.path.join(root, fn), encoding="utf-8").read()))
+                        except OSError:
+                            pass
+            self._repo_traits = t
+        return t
+
+    # ---- generic instantiation: type-parameter names are read from the source declarations
+    def _scan_fn_generics(self):
+        idx = {}
+        for root, _, files in os.walk(self.srcroot):
+            if "/target" in root or "/tests" in root:
+                continue
+            for fn in files:
+                if not fn.endswith(".rs"):
+                    continue
+                try:
+                    text = open(os.path.join(root, fn), encoding="utf-8").read()
+                except OSError:
+                    continue
+                for m in re.finditer(r"\bfn\s+([a-z_][A-Za-z0-9_]*)\s*<([^>(]*)>\s*\(", text):
+                    names = []
+                    for part in split_top(m.group(2)):
+                        part = part.strip()
+                        if not part or part.startswith("'") or part.startswith("const "):
+                            continue
+                        names.append(part.split(":")[0].strip())
+                    if names:
+                        idx.setdefault(m.group(1), [])
+                        if names not in idx[m.group(1)]:
+                            idx[m.group(1)].append(names)
+        return idx
+
+    @staticmethod
+    def _type_args(t):
+        """'ast::AstChildren<nodes::Stmt>' -> ('AstChildren', ['nodes::Stmt'])"""
+        t = t.strip().lstrip("&").replace("mut ", "")
+        m = re.match(r"^([A-Za-z_0-9:]+?)(?:::)?<(.*)>$", t)
+        if not m:
+            return last_seg(t), []
+        return last_seg(m.group(1)), [a for a in split_top(m.group(2)) if not a.startswith("'")]
+
+    def bind_generics(self, callee, f):
+        key = ("bind", callee, f.rawname)
+        r = self._rcache.get(key, 0)
+        if r != 0:
+            return r
+        r = {}
+        hdr = self.impl_hdr.get(f.rawname)
+        selfty_call = None
+        m = re.match(r"^<(.*) as ([^>]*(?:<.*>)?)>::([A-Za-z_0-9]+)(::<.*>)?$", callee)
+        if m:
+            selfty_call = m.group(1)
+        else:
+            m2 = re.match(r"^(.*)::([A-Za-z_0-9]+)(::<.*>)?$", callee)
+            if m2 and ("<" in m2.group(1)):
+                selfty_call = m2.group(1)
+        if hdr is not None and hdr[0].startswith("impl"):
+            gm = re.match(r"^impl\s*<([^>]*)>\s*(.*)$", hdr[0])
+            if gm:
+                names = [p.split(":")[0].strip() for p in split_top(gm.group(1)) if p.strip() and not p.strip().startswith("'")]
+                rest = gm.group(2)
+                pat = rest.split(" for ", 1)[1] if " for " in rest else rest
+                pat = pat.split(" where ")[0].rstrip("{ ").strip()
+                if selfty_call is not None and names:
+                    pn, pargs = self._type_args(pat)
+                    cn, cargs = self._type_args(re.sub(r"::<", "<", selfty_call))
+                    if pn == cn and len(pargs) == len(cargs):
+                        for pa, ca in zip(pargs, cargs):
+                            if pa.strip() in names:
+                                r[pa.strip()] = ca.strip()
+        # method-level / free-function generics from the trailing ::<..>
+        tm = re.search(r"::<(.*)>$", callee)
+        if tm:
+            if self._fn_generics is None:
+                self._fn_generics = self._scan_fn_generics()
+            fname = f.rawname.split("::")[-1]
+            args = [a.strip() for a in split_top(tm.group(1)) if not a.strip().startswith("'")]
+            cands = [n for n in self._fn_generics.get(fname, []) if len(n) == len(args)]
+            if len(cands) >= 1:
+                for n_, a_ in zip(cands[0], args):
+                    if not a_.startswith("{closure") and not a_.startswith("fn("):
+                        r[n_] = a_
+        r = r or None
+        self._rcache[key] = r
+        return r
 
     def trait_default(self, callee):
         """`<T as Trait>::m` with no impl of m for T: the trait's default body (generic over Self), and T"""
@@ -633,7 +845,9 @@ class Exec:
 
     # ---- calls
     def call(self, callee, args):
-        f = self.prog.resolve(callee)
+        f = self.prog.resolve(callee, self.cur_crate())
+        if f is not None and self.models.skip_re is not None and self.models.skip_re.search(f.rawname):
+            f = None
         if f is None or callee in self.models.force:
             h = self.models.lookup(callee)
             if h is None:
@@ -642,7 +856,14 @@ class Exec:
                     return self.run(d[0], args, tysubst={"Self": d[1]})
                 raise Unsupported("call " + callee)
             return h(self, callee, args)
-        return self.run(f, args)
+        tys = self.prog.bind_generics(callee, f) if ("<" in callee) else None
+        return self.run(f, args, tysubst=tys)
+
+    def cur_crate(self):
+        if self.stack:
+            f = self.prog.funcs.get(self.stack[-1])
+            return getattr(f, "crate", None)
+        return None
 
     def subst_types(self, callee, tysubst):
         key = (callee, tuple(sorted(tysubst.items())))
@@ -818,6 +1039,8 @@ class Exec:
                     raise Unsupported("deref of " + repr(v))
             elif t == "field":
                 v = cont[key]
+                if isinstance(v, Ref) and ("std::ptr::Unique<" in pr[2] or "NonNull<" in pr[2] or "*const " in pr[2]):
+                    continue        # Box<T> = {Unique{NonNull{ptr}}}: a Box value is represented by the reference itself
                 if isinstance(v, EnumV):
                     cont, key = v.fields, pr[1]
                 elif isinstance(v, list):
@@ -866,6 +1089,9 @@ class Exec:
 
     def operand(self, op, L):
         if op.mode == "const":
+            ts = self.subst_stack[-1]
+            if ts:
+                return self.const_value(self.subst_types(op.const, ts), None)
             return self.const_value(op.const, None)
         v = self.load(op.place, L)
         if v is MOVED:
@@ -907,6 +1133,8 @@ class Exec:
             return ord(s)
         if t in STD_CONSTS:
             return STD_CONSTS[t]
+        if "SizedTypeProperties>::" in t:
+            return {"ALIGN": 1, "SIZE": 8, "IS_ZST": False}.get(t.rsplit("::", 1)[-1], 1)
         cm = re.match(r"^core::num::<impl (\w+)>::(\w+)$", t)
         if cm and (cm.group(1) + "::" + cm.group(2)) in STD_CONSTS:
             return STD_CONSTS[cm.group(1) + "::" + cm.group(2)]
@@ -944,12 +1172,22 @@ class Exec:
                     self.models.cache[key] = c
                 return copy.deepcopy(c) if not has_ref(c) else c
             return FnItem(t)
-        ei = self.prog.enum_info(t)
+        ei = self.prog.enum_info(t, self.cur_crate())
         if ei:
             en, idx = ei
             if self.prog.fieldless(en):
                 return self.prog.disc_of(en, idx)
             return EnumV(en, idx, [])
+        if re.match(r"^[A-Z][A-Za-z0-9_]*$", t):
+            # a variant imported with `use Enum::*` is printed bare (`CONST_KW`)
+            hits = [(en, v[0].index(t)) for en, v in self.prog.enums.items() if t in v[0]]
+            if not hits and t in self.prog.unit_structs():
+                return []          # unit struct value
+            if len(hits) == 1:
+                en, idx = hits[0]
+                if self.prog.fieldless(en):
+                    return self.prog.disc_of(en, idx)
+                return EnumV(en, idx, [])
         sg = strip_generics(t)
         f = self.prog.funcs.get(sg)
         if f is not None and f.kind != "fn":
@@ -1023,13 +1261,13 @@ class Exec:
         if k == "adt_unit":
             return self.const_value(rv[1], None)
         if k == "adt_tuple":
-            ei = self.prog.enum_info(rv[1])
+            ei = self.prog.enum_info(rv[1], getattr(f, "crate", None))
             vals = [self.operand(o, L) for o in rv[2]]
             if ei:
                 return EnumV(ei[0], ei[1], vals)
             return vals  # tuple struct
         if k == "adt_struct":
-            ei = self.prog.enum_info(rv[1])
+            ei = self.prog.enum_info(rv[1], getattr(f, "crate", None))
             vals = [self.operand(o, L) for _, o in rv[2]]
             if ei:
                 return EnumV(ei[0], ei[1], vals)
@@ -1190,6 +1428,8 @@ def _bv(v, w):
     return z3.BitVecVal(v, w)
 
 def binop(ex, op, a, b, opa, opb, L, f):
+    if isinstance(a, Ref) and isinstance(b, int):
+        a = 0x10000          # address of a live allocation in std's inlined alignment / null pre-condition checks: aligned, non-null
     if type(a).__name__ == "LenV" or type(b).__name__ == "LenV":
         from .strmodel import lenv_binop
         r = lenv_binop(ex, op, a, b)
